@@ -55,18 +55,19 @@ def _registry_by_ast():
     return res
 
 
+def grammar_productions():
+    """`module_ir.PRODUCTIONS` in a canonical order.  The list order in module_ir depends on
+    PYTHONHASHSEED (the productions that expand `x*`, `x+`, `x?` come out of a set), so it is
+    sorted here: the generated file must not change from run to run."""
+    return sorted(module_ir.PRODUCTIONS, key=lambda p: (p.lhs, tuple(p.rhs)))
+
+
 def registry():
-    """Registry entries, ordered like module_ir.PRODUCTIONS (entries for productions the
-    grammar does not have come last, in registration order): with equal production sets the
+    """Registry entries sorted like `grammar_productions()`: with equal production sets the
     Lean-side comparison with the grammar is a linear list equality."""
     r = _registry_by_closure()
     r = r if r is not None else _registry_by_ast()
-    pos = {}
-    for i, p in enumerate(module_ir.PRODUCTIONS):
-        pos.setdefault(p, i)
-    big = len(pos)
-    return [e for _, _, e in sorted(((pos.get(e[0], big), i, e) for i, e in enumerate(r)),
-                                    key=lambda t: (t[0], t[1]))]
+    return sorted(r, key=lambda e: (e[0].lhs, tuple(e[0].rhs)))
 
 
 def lean_str(s):
@@ -103,10 +104,10 @@ def render():
         "/-- `module_ir.START_SYMBOL`. -/",
         "def startSymbol : String := %s" % lean_str(module_ir.START_SYMBOL),
         "",
-        "/-- `module_ir.PRODUCTIONS` as (lhs, rhs), in list order. -/",
+        "/-- `module_ir.PRODUCTIONS` as (lhs, rhs), sorted (the list order in module_ir is hash-seed dependent). -/",
         "def grammar : List (String × List String) := [",
     ]
-    ps = list(module_ir.PRODUCTIONS)
+    ps = grammar_productions()
     for i, p in enumerate(ps):
         lines.append("  (%s, %s)%s" % (lean_str(p.lhs), lean_list([lean_str(s) for s in p.rhs]),
                                      "," if i + 1 < len(ps) else ""))
@@ -114,7 +115,7 @@ def render():
         "]",
         "",
         "/-- `format_emb._formatters`: (lhs, rhs, handler function name, registered with",
-        "`_formats_with_config`), in registration order.  A parse-tree node is serialised",
+        "`_formats_with_config`), sorted like `grammar`.  A parse-tree node is serialised",
         "for the model driver by the index of its production in this list. -/",
         "def formatters : List (String × List String × String × Bool) := [",
     ]
